@@ -46,7 +46,9 @@ func cmdWhile(p *lang.Process) error {
 
 		for {
 			if p.HasCancelled() {
-				return errors.New(errCancelled)
+				// `break`, `return` or ctrl+c: the loop ends quietly, the exit
+				// number is whatever cancelled it
+				return nil
 			}
 
 			iteration++
@@ -89,7 +91,7 @@ func cmdWhile(p *lang.Process) error {
 		}
 
 		for {
-			if p.HasTerminated() {
+			if p.HasTerminated() || p.HasCancelled() {
 				return nil
 			}
 
